@@ -191,7 +191,7 @@ def run(ctx: Ctx) -> None:
     from ..parsershape import normal_flow
     lfl = normal_flow(m, li)
     alltxt = " ".join(lfl.canon(e.expr) + " | " + lfl.canon_cond(e.cond) for e in lfl.effects)
-    CLS = "instruction_map[ELEM1.2(P0.text).mnemonic.upper()]"
+    CLS = "instruction_map[ELEM1.0(P0.text)[2].mnemonic.upper()]"
     r.check(f"{CLS}(address=" in alltxt and f"{CLS}()" in alltxt and f"issubclass({CLS}, AddressTypeInstruction)" in alltxt,
             "ToyParser._load_instructions|dispatch", li.loc(), "parser no longer instantiates instruction_map[MNEMONIC] by address/no-address kind")
     # micro program
